@@ -28,6 +28,9 @@ C14.every  validate_msg folds the state of *every* validated RRset of the
            answer section into the verdict (a loop over the groups whose
            state() feeds map_maybe_secure), not only the ones on the CNAME
            chain and the final answer.
+C14.nosoa  validate_msg does not call a negative answer bogus merely because no
+           SOA came with it: that verdict is preceded by a chain-of-trust
+           lookup (get_node) for the name, whose non-secure state wins.
 C14.panic  no unwrap/expect on values derived from upstream response content
            whose error type is a parse/decode error, in any validator body
            (each remaining site is audited with the invariant it relies on).
@@ -82,6 +85,7 @@ def run(ctx):
     rule_target(ctx, F)
     rule_wild(ctx, F)
     rule_every(ctx, F)
+    rule_nosoa(ctx, F)
 
 
 def rule_sig(ctx, F):
@@ -585,7 +589,7 @@ def rule_signer(ctx, F):
     fcall = [bb for bb, _ in gn.calls_matching(r"::find_closest_node(::<.*>)?$")]
     for d in defs:
         bb = d[1]
-        if gn.blocks[bb]["c"]:
+        if gn.blocks[bb].get("c"):
             continue            # the unwind twin of a drop-and-assign
         in_loop = gn.dominates(cbb, bb)
         if in_loop:
@@ -616,7 +620,7 @@ def rule_target(ctx, F):
             n = rv[1][1][0] if rv[0] == "use" and rv[1][0] in ("c", "m") else (rv[2][0] if rv[0] == "ref" else n)
             continue
         break
-    defs = [d for d in b.defs().get(n, []) if not b.blocks[d[1]]["c"]]
+    defs = [d for d in b.defs().get(n, []) if not b.blocks[d[1]].get("c")]
     from_sig = [d for d in defs if d[0] == "call" and re.search(r"Rrsig::<.*>::signer_name$", d[2]["fn"] or "")]
     def via_owner(d):
         if d[0] == "call":
@@ -685,3 +689,34 @@ def rule_every(ctx, F):
            "validate_msg looks only at the RRsets on the CNAME/DNAME chain and at the final answer: an additional RRset in the "
            "answer section that is unsigned (insecure or indeterminate) leaves the verdict Secure, and the validating client "
            "sets AD on a message that carries it")
+
+
+def rule_nosoa(ctx, F):
+    R = "C14.nosoa"
+    ctx.floor(R, 1)
+    bs = [b for p, b in F.bodies.items() if re.search(r"ValidationContext::<\w+>::validate_msg(::<.*>)?::\{closure#0\}$", p)]
+    if not ctx.anchor(R, "ValidationContext::validate_msg", len(bs) == 1):
+        return
+    b = bs[0]
+    soa = [bb for bb, _ in b.calls_matching(r"utilities::get_soa_state$")]
+    proofs = [bb for bb, _ in b.calls_matching(r"validator::nsec::nsec3?_for_\w+$")]
+    nodes = [bb for bb, _ in b.calls_matching(r"::get_node(::<.*>)?$")]
+    if not ctx.anchor(R, "get_soa_state and the denial proofs in validate_msg", len(soa) == 1 and len(proofs) >= 2, b.where()):
+        return
+    sites = []
+    for bi in b.reachable_blocks():
+        if b.blocks[bi].get("c"):
+            continue
+        for st in b.blocks[bi]["s"]:
+            if st[0] == "=" and st[2][0] == "agg" and st[2][1][0] == "adt" and st[2][1][1].endswith("ValidationState") \
+                    and "Bogus" in str(st[2][1][2:]) + str(st[2][1]):
+                if b.dominates(soa[0], bi) and not any(b.dominates(p, bi) for p in proofs):
+                    sites.append(bi)
+    if not ctx.anchor(R, "the 'no SOA' verdict", len(sites) >= 1, b.where(soa[0])):
+        return
+    for bi in sites:
+        ctx.ob(R, b, "bogus for a missing SOA only after the chain of trust for the name was consulted",
+               any(b.dominates(n, bi) for n in nodes),
+               "validate_msg answers Bogus when a NODATA/NXDOMAIN reply carries no SOA without ever looking up the chain of "
+               "trust for the name: an empty negative reply for a name below an insecure delegation is reported bogus "
+               "instead of insecure", b.where(bi))
